@@ -297,6 +297,22 @@ fn adversarial(family: usize, len: usize, kind: u8) -> (Vec<u8>, u8) {
             b.extend_from_slice(b"\r\n");
             while b.len() + 16 < len { b.extend_from_slice(b"q\x7f\r\n"); }
         }
+        15 => {
+            // a huge number of very short ignored lines with bare-LF ends and no CR anywhere
+            while b.len() + 8 < len { b.extend_from_slice(b"z\x01\n"); }
+        }
+        16 => {
+            // bare-LF head: many short valid headers (more than the array holds is fine), no CR anywhere
+            b.clear();
+            b.extend_from_slice(if kind == K_REQ { &b"GET / HTTP/1.1\n"[..] } else { &b"HTTP/1.1 200 OK\n"[..] });
+            while b.len() + 8 < len { b.extend_from_slice(b"h: v\n"); }
+        }
+        17 => {
+            // values with many interior HTABs (a word-at-a-time scanner stops at each), bare LF
+            b.extend_from_slice(b"a: ");
+            while b.len() + 8 < len { b.extend_from_slice(b"x\ty\t"); }
+            b.extend_from_slice(b"z\n");
+        }
         14 => {
             // folded value whose continuation lines are mostly trailing whitespace
             b.extend_from_slice(b"a: x\r\n");
@@ -322,11 +338,11 @@ fn cmd_work(args: &[String]) {
     let arena = Arena::new((2 << 20) + 8192);
     let mut n = 0;
     for &len in &sizes {
-        for fam in 0..16 {
+        for fam in 0..18 {
             for kind in [K_REQ, K_RESP] {
                 let (data, all) = adversarial(fam, len, kind);
                 for cfg in [0u8, all] {
-                    for cap in [0usize, 4, 200] {
+                    for cap in [0usize, 4, 200, 30000] {
                         for complete in [false, true] {
                             let mut d = data.clone();
                             if complete {
